@@ -255,7 +255,7 @@ def run(ctx):
     cases = corpus_cases()
     n_corpus = len(cases)
     cases += builtin_cases()
-    cases += user_cases(ctx, 400 if ctx.tier == 'quick' else 8000)
+    cases += user_cases(ctx, 400 if ctx.tier == 'quick' else 6000)
     wires, idx, impl = [], [], []
     maxdepth = 0
     timeouts = 0
